@@ -30,21 +30,31 @@ def fdKind (c : List (String × FdKind)) (fd : String) : Option FdKind := (c.fin
 
 def chOf (d : String) : Option Ch := if d == "local" then some .loc else if d == "remote" then some .rem else none
 
+abbrev Key := Nat × Nat × Nat × Nat     -- (message, channel 0|1, byte offset of the record in its channel file, generation of the message number)
+
 structure Obs where   -- what the oracle needs, gathered independently of the monitor
   msgs : List (Nat × Bytes × List Bytes) := []          -- accepted messages (id, sender, rcpts), newest first
   cmds : List (Nat × Nat × Nat × Nat × Bytes × Nat) := []   -- attempt, chan, m, mpos, recip, generation
   kAttempts : List Nat := []                             -- attempts answered K by the spawner
   dAttempts : List Nat := []                             -- attempts answered D/B
   zAttempts : List Nat := []
-  bouncesOk : List Bytes := []                           -- bodies of successfully queued bounces
-  marks : List (Nat × Nat × Nat × Nat) := []             -- (m, chan, mpos, generation) D bytes written
-  machineCrash : Bool := false
+  failAtt : List Nat := []                               -- attempts answered D, or Z while the message was past its queue lifetime (clock > birth + life at report time)
+  pendPara : List Nat := []                              -- … whose bounce paragraph has not been seen yet, oldest first (volatile: emptied at every start)
+  inFile : List Key := []                                -- records whose paragraph was appended to the *current* bounce/<m>
+  noted : List Key := []                                 -- records whose paragraph was appended, ever
+  bounced : List Key := []                               -- records named in a bounce of their message that qmail-queue accepted with the right envelope
+  dropped : List Key := []                               -- records whose paragraph was in bounce/<m> of a `#@[]` message when that file was unlinked
+  lost : List Key := []                                  -- records whose paragraph was in bounce/<m> before a machine crash and is not in it afterwards
+  marks : List Key := []                                 -- D bytes on disk (written, and not reverted by a machine crash; file not unlinked)
   active : List (Nat × Nat × Nat) := []                  -- (chan, delnum, attempt) in flight
   dl0 : Bytes × Nat := ([], 0)                           -- report line buffers of the observer (reversed, length)
   dl1 : Bytes × Nat := ([], 0)
   gen : List (Nat × Nat) := []                           -- message id → generation counter
-  reported : List (Nat × Nat × Nat × Nat) := []          -- (m, chan, mpos, generation): K/D report read by the daemon, completion mark not yet seen
-                                                         -- (emptied by a crash and by a failing system call of qmail-send: "will be delivered twice")
+  reported : List Key := []                              -- K/D report read by the daemon (or Z of an expired message whose paragraph was appended), completion mark not yet seen
+                                                         -- (emptied by a crash; one entry is excused by a failing system call of ITS `markdone`)
+  markQueue : List Key := []                             -- K/D reports of the current read whose `markdone` has not been seen, oldest first (volatile)
+  clock : Nat := 0                                       -- virtual clock as of the last select
+  birth : List (Nat × Nat) := []                         -- message id → clock when info/<m> was last written
 
 structure Case where
   hdr : String := ""
@@ -74,9 +84,20 @@ def routeSimple (a : Bytes) : Ch × Bytes :=
 
 def genOf (o : Obs) (m : Nat) : Nat := ((o.gen.find? (fun g => g.1 == m)).map (·.2)).getD 0
 
+def birthOf (o : Obs) (m : Nat) : Nat := ((o.birth.find? (fun g => g.1 == m)).map (·.2)).getD 0
+
+def keyOfAtt (o : Obs) (att : Nat) : Option Key :=
+  (o.cmds.find? (fun (a, _) => a == att)).map (fun (_, c3, m3, mpos3, _, g3) => (m3, c3, mpos3, g3))
+
+def recipOfKey (o : Obs) (k : Key) : Bytes :=
+  ((o.cmds.find? (fun (_, c3, m3, mpos3, _, g3) => (m3, c3, mpos3, g3) == k)).map (fun (_, _, _, _, r, _) => r)).getD []
+
+/-- first line of the bounce paragraph of a recipient (`addbounce`) -/
+def paraHdr (recip : Bytes) : Bytes := [60] ++ sanitizeLF recip ++ [62, 58, 10]
+
 /-- the observer's own reading of the report stream: which in-flight attempt got which letter
 (line buffers kept reversed with their length) -/
-def observeReports (o : Obs) (cn : Nat) : Bytes → Obs
+def observeReports (life : Nat) (o : Obs) (cn : Nat) : Bytes → Obs
   | [] => o
   | b :: bs =>
     let (rev, len) := if cn == 0 then o.dl0 else o.dl1
@@ -91,15 +112,20 @@ def observeReports (o : Obs) (cn : Nat) : Bytes → Obs
       match o.active.find? (fun (c2, dn2, _) => c2 == cn && dn2 == delnum) with
       | some (_, _, att) =>
         let o := { o with active := o.active.filter (fun (c2, dn2, _) => !(c2 == cn && dn2 == delnum)) }
-        let key := (o.cmds.find? (fun (a, _) => a == att)).map (fun (_, c3, m3, mpos3, _, g3) => (m3, c3, mpos3, g3))
-        let o := if letter = 75 ∨ letter = 68 then { o with reported := key.toList ++ o.reported } else o
+        let key := keyOfAtt o att
+        let expired := match key with
+          | some k => decide (o.clock > birthOf o k.1 + life)
+          | none => false
+        let o := if letter = 75 ∨ letter = 68 then { o with reported := key.toList ++ o.reported, markQueue := o.markQueue ++ key.toList } else o
+        -- a permanent failure: `D`, or `Z` for a message past its queue lifetime (the daemon may turn it into `D`)
+        let o := if letter = 68 ∨ (letter = 90 ∧ expired = true) then { o with failAtt := att :: o.failAtt, pendPara := o.pendPara ++ [att] } else o
         let o := if letter = 75 then { o with kAttempts := att :: o.kAttempts }
                  else if letter = 68 then { o with dAttempts := att :: o.dAttempts }
                  else { o with zAttempts := att :: o.zAttempts }
-        observeReports o cn bs
-      | none => observeReports o cn bs
+        observeReports life o cn bs
+      | none => observeReports life o cn bs
     else
-      observeReports (if cn == 0 then { o with dl0 := (rev, len) } else { o with dl1 := (rev, len) }) cn bs
+      observeReports life (if cn == 0 then { o with dl0 := (rev, len) } else { o with dl1 := (rev, len) }) cn bs
 
 structure D where
   st : Stats := {}
@@ -140,7 +166,20 @@ def envRcpts (b : Bytes) : List Bytes :=
     | x :: rest => if x = 0 then (match cur.reverse with | 84 :: a => [a] | _ => []) ++ go [] rest else go (x :: cur) rest
   go [] b
 
-/-- end of a case: recipient accounting on the concrete run (C03) -/
+/-- records of a channel-file dump with their byte offsets: (offset, done, address) -/
+def dumpRecsPos (b : Bytes) : List (Nat × Bool × Bytes) :=
+  let rec go (start off : Nat) (cur : Bytes) : Bytes → List (Nat × Bool × Bytes)
+    | [] => []
+    | x :: rest => if x = 0 then
+        (match cur.reverse with | m :: a => [(start, m == 68, a)] | [] => []) ++ go (off + 1) (off + 1) [] rest
+      else go start (off + 1) (x :: cur) rest
+  go 0 0 [] b
+
+/-- end of a case: recipient accounting on the concrete run (C03).  Every accepted recipient is identified by its record
+(message, channel, byte offset — the harness's recipients are routed as they are, in order) and must be: reported `K`; named
+in a bounce of ITS message that qmail-queue accepted with the envelope `bounceEnvelope` of the accepted sender; still `T` at
+its offset; still in `todo/<m>`; named in `bounce/<m>` which exists together with `info/<m>`; or exempt — *its own* paragraph was
+in the bounce file of a `#@[]` message when that was discarded, or in `bounce/<m>` before a machine crash and not after. -/
 def finishCase (d0 : D) : IO D := do
   let mut d := d0
   let o := d.c.obs
@@ -148,26 +187,49 @@ def finishCase (d0 : D) : IO D := do
   for (m, sender, rcpts) in o.msgs do
     -- only the newest generation of a reused number is still in the dump; older ones were removed after completion
     let g := genOf o m
+    let mut posL := 0
+    let mut posR := 0
     for r in rcpts do
       let addr := (routeSimple r).2
       let ch := if (routeSimple r).1 == .loc then 0 else 1
-      let myCmds := o.cmds.filter (fun (_, c, mm, _, rc, gg) => mm == m && c == ch && rc == addr && gg == g)
+      let mpos := if ch == 0 then posL else posR
+      if ch == 0 then posL := posL + addr.length + 2 else posR := posR + addr.length + 2
+      let key : Key := (m, ch, mpos, g)
+      let myCmds := o.cmds.filter (fun (_, c, mm, mp, _, gg) => (mm, c, mp, gg) == key)
       let delivered := myCmds.any (fun (a, _) => o.kAttempts.contains a)
-      let failedD := myCmds.any (fun (a, _) => o.dAttempts.contains a || o.zAttempts.contains a)
-      let para := [60] ++ sanitizeLF addr ++ [62, 58, 10]
-      let bounced := o.bouncesOk.any (fun body => isInfix para body)
+      let bounced := o.bounced.contains key
       let fileOf (dir : String) : Option Bytes := (dump.find? (fun (p, _) => p == s!"{dir}/{m % Gen.auto_split}/{m}")).map (·.2)
-      let stillT := ((fileOf "local").map (fun b => (dumpRecs b).any (fun (dn, a) => !dn && a == addr))).getD false ||
-                    ((fileOf "remote").map (fun b => (dumpRecs b).any (fun (dn, a) => !dn && a == addr))).getD false
+      let stillT := ((fileOf (if ch == 0 then "local" else "remote")).map
+                      (fun b => (dumpRecsPos b).any (fun (off, dn, a) => off == mpos && !dn && a == addr))).getD false
       let inTodo := ((dump.find? (fun (p, _) => p == s!"todo/{m}")).map (fun (_, b) => (envRcpts b).contains r)).getD false
-      let inBounceFile := ((dump.find? (fun (p, _) => p == s!"bounce/{m}")).map (fun (_, b) => isInfix para b)).getD false
+      let inBounceFile := o.inFile.contains key &&
+        ((dump.find? (fun (p, _) => p == s!"bounce/{m}")).map (fun (_, b) => isInfix (paraHdr addr) b)).getD false
       let infoThere := (fileOf "info").isSome
-      let exemptDouble := sender == "#@[]".toUTF8.toList && failedD
-      let exemptCrash := o.machineCrash && failedD
+      let exemptDouble := sender == "#@[]".toUTF8.toList && o.dropped.contains key
+      let exemptCrash := o.lost.contains key
       let ok := delivered || bounced || stillT || inTodo || (inBounceFile && infoThere) || exemptDouble || exemptCrash
       if !ok then
-        d ← oracleFail d "C03" s!"recipient {hex r} of message {m} is neither delivered, bounced nor still queued"
+        d ← oracleFail d "C03" s!"recipient {hex r} (record at offset {mpos} of chan {ch}) of message {m} is neither delivered, bounced nor still queued"
   return d
+
+/-- after a crash every file the monitor has must still exist (qsim keeps directory entries across crashes) -/
+def missingAfterCrash (s : St) (dump : List (String × Bytes)) : List String :=
+  let has (p : String) : Bool := dump.any (fun (q, _) => q == p)
+  s.tab.foldl (fun acc (k, ms) =>
+    acc ++ (if ms.bounce.isSome && !has s!"bounce/{k}" then [s!"bounce/{k}"] else [])
+        ++ (if ms.info.isSome && !has s!"info/{k % Gen.auto_split}/{k}" then [s!"info/{k % Gen.auto_split}/{k}"] else [])
+        ++ (if ms.loc.isSome && !has s!"local/{k % Gen.auto_split}/{k}" then [s!"local/{k % Gen.auto_split}/{k}"] else [])
+        ++ (if ms.rem.isSome && !has s!"remote/{k % Gen.auto_split}/{k}" then [s!"remote/{k % Gen.auto_split}/{k}"] else [])) []
+
+/-- the crash dump is complete: check it for files the monitor has and the dump lacks -/
+def endCrashDump (d : D) : IO D := do
+  match d.c.pendingCrashMode, d.c.st with
+  | some _, some s2 =>
+    let d := { d with c := { d.c with pendingCrashMode := none } }
+    match missingAfterCrash s2.base d.c.finalDump with
+    | [] => return d
+    | p :: _ => reject d s!"after the crash {p} is gone but the monitor has it"
+  | _, _ => return { d with c := { d.c with pendingCrashMode := none } }
 
 def handle (d : D) (line : String) : IO D := do
   let toks := fields line
@@ -206,12 +268,16 @@ def handle (d : D) (line : String) : IO D := do
     let o := d.c.obs
     let g := genOf o m
     let mut dd := d
-    -- C04 oracle: never start a record whose D byte was written (and not lost in a machine crash); bounded concurrency
-    if o.marks.contains (m, cn, mpos, g) && !o.machineCrash then
+    -- C04 oracle: never start a record whose D byte is on disk (`marks` is re-read from the dump after every crash, so a mark
+    -- reverted by a machine crash does not count and one written after the crash does); bounded concurrency
+    if o.marks.contains (m, cn, mpos, g) then
       dd ← oracleFail dd "C04" s!"delivery started for message {m} chan {cn} mpos {mpos} after its completion mark was written"
-    else if o.reported.contains (m, cn, mpos, g) && !o.machineCrash then
-      -- reported K or D in this run or before a clean stop; no crash and no failing call since the report was read
-      dd ← oracleFail dd "C04" s!"delivery started for message {m} chan {cn} mpos {mpos} (recipient {hex recip}) although it was already reported K/D (no crash, no failing call in between; its completion mark was never written)"
+    else if o.reported.contains (m, cn, mpos, g) then
+      -- reported K or D in this run or before a clean stop; no crash and no failing call of its markdone since the report was read
+      dd ← oracleFail dd "C04" s!"delivery started for message {m} chan {cn} mpos {mpos} (recipient {hex recip}) although it was already reported K/D (no crash, no failing call of its markdone in between; its completion mark was never written)"
+    -- at most one attempt per recipient in flight
+    if o.active.any (fun (_, _, a2) => keyOfAtt o a2 == some (m, cn, mpos, g)) then
+      dd ← oracleFail dd "C04" s!"second delivery started for message {m} chan {cn} mpos {mpos} while an attempt for the same recipient is in flight"
     if o.active.any (fun (c2, dn2, _) => c2 == cn && dn2 == delnum) then
       dd ← oracleFail dd "C04" s!"delivery slot {delnum} of chan {cn} reused while in flight"
     let lim := if cn == 0 then d.c.concLoc else d.c.concRem
@@ -225,17 +291,30 @@ def handle (d : D) (line : String) : IO D := do
     let env := (unhex (kvOf rest "env")).getD []
     let body := (unhex (kvOf rest "body")).getD []
     let o := d.c.obs
-    let o := if ok then { o with bouncesOk := body :: o.bouncesOk } else o
-    feed { d with c := { d.c with obs := o } } (.bounceInject d.c.lastBounceStat ok env body) s!"bounceInject m={d.c.lastBounceStat} ok={ok}"
+    let m := d.c.lastBounceStat
+    let g := genOf o m
+    let mut dd := d
+    if ok then
+      -- C03 oracle: a bounce goes to the envelope sender the message was accepted with (never for `#@[]`), and counts only
+      -- for the records of THIS message whose paragraph is in its text
+      match o.msgs.find? (fun x => x.1 == m) with
+      | some (_, sender, _) =>
+        if sender == "#@[]".toUTF8.toList || env != bounceEnvelope d.c.cfg sender then
+          dd ← oracleFail dd "C03" s!"bounce of message {m} (sender {hex sender}) was queued with envelope {hex env}"
+        else
+          let named := o.inFile.filter (fun k => k.1 == m && k.2.2.2 == g && isInfix (paraHdr (recipOfKey o k)) body)
+          dd := { dd with c := { dd.c with obs := { o with bounced := named ++ o.bounced } } }
+      | none => dd ← oracleFail dd "C03" s!"bounce queued for message {m}, which was never accepted"
+    feed dd (.bounceInject m ok env body) s!"bounceInject m={m} ok={ok}"
   | "X" :: "start" :: rest =>
     let inc := (kvOf rest "incarnation").toNat!
     let c := { d.c with fds0 := [], bounceAcc := [], chanAcc := [], reqAcc := [], firstRead := [] }
-    let c := { c with obs := { c.obs with active := [], dl0 := ([], 0), dl1 := ([], 0) } }
-    return { d with c := c }
+    let c := { c with obs := { c.obs with active := [], dl0 := ([], 0), dl1 := ([], 0), pendPara := [], markQueue := [] } }
+    endCrashDump { d with c := c }
   | "X" :: "crash-applied" :: rest =>
     let mode := (kvOf rest "mode").toNat!
     let o := d.c.obs
-    feed { d with c := { d.c with pendingCrashMode := some mode, obs := { o with machineCrash := o.machineCrash || mode != 0, reported := [] } } } .restart "restart"
+    feed { d with c := { d.c with pendingCrashMode := some mode, obs := { o with reported := [], pendPara := [], markQueue := [] } } } .restart "restart"
   | "X" :: "dump" :: tag :: _ =>
     -- a new queue dump begins (it may be empty: then no `D` line follows and the oracle must not judge an older dump)
     return { d with c := { d.c with dumpTag := tag, finalDump := [] } }
@@ -258,6 +337,12 @@ def handle (d : D) (line : String) : IO D := do
         match chOf dir with
         | some ch =>
           let marks := (dumpRecs cur).map (·.1)
+          -- the observer re-reads the D bytes that are on disk after the crash (C04 oracle)
+          let cn := if ch == .loc then 0 else 1
+          let g := genOf dd.c.obs m
+          let onDisk : List Key := (dumpRecsPos cur).filterMap (fun (off, dn, _) => if dn then some (m, cn, off, g) else none)
+          dd := { dd with c := { dd.c with obs := { dd.c.obs with
+                    marks := onDisk ++ dd.c.obs.marks.filter (fun k => !(k.1 == m && k.2.1 == cn && k.2.2.2 == g)) } } }
           match ms.chan ch with
           | some rs =>
             if ms.todo.isSome then
@@ -268,17 +353,27 @@ def handle (d : D) (line : String) : IO D := do
           | none => dd ← reject dd s!"after the crash {path} exists but not in the model"
         | none =>
           if dir == "bounce" then
-            if ms.bounce != some cur then dd ← feed dd (.crashBounce m cur) s!"crashBounce {m}"
+            -- observer (C03 exemption): a paragraph that was in the file before a MACHINE crash and is not in it now is lost
+            let o := dd.c.obs
+            let g := genOf o m
+            let gone := o.inFile.filter (fun k => k.1 == m && k.2.2.2 == g && !isInfix (paraHdr (recipOfKey o k)) cur)
+            if mode != 0 && !gone.isEmpty then
+              dd := { dd with c := { dd.c with obs := { o with lost := gone ++ o.lost, inFile := o.inFile.filter (fun k => !gone.contains k) } } }
+            if ms.bounce != some cur then
+              -- a process crash loses nothing: the file may only have grown, by an `addbounce` that was cut short
+              if mode == 0 && !((ms.bounce.getD []).isPrefixOf cur && s.cut.contains m) then
+                dd ← reject dd s!"after a process crash {path} differs from the model (no interrupted addbounce explains it)"
+              else dd ← feed dd (.crashBounce m cur) s!"crashBounce {m}"
           else if dir == "info" then
             if ms.todo.isSome && ms.info != some cur then dd ← feed dd (.crashTodoFiles m) s!"crashTodoFiles {m}"
       | none => pure ()
     | _, _ => pure ()
     return dd
   | "T" :: "P0" :: rest =>
-    let d := if d.c.pendingCrashMode.isSome then { d with c := { d.c with pendingCrashMode := none } } else d
-    -- a failing system call excuses the marks that are still due ("trouble marking …; message will be delivered twice")
-    let d := if rest.getLast? == some "FAULT" && !d.c.obs.reported.isEmpty then { d with c := { d.c with obs := { d.c.obs with reported := [] } } } else d
-    -- … and tells the monitor which file's due marks are excused: markdone's open_write / fstat / write failed
+    let d ← endCrashDump d
+    -- a failing system call of `markdone` (open_write / fstat / write on local|remote/<m>) excuses the mark of the record it was
+    -- called for — the oldest report of the current read whose mark is still outstanding ("trouble marking …; message will be
+    -- delivered twice") — and nothing else
     let failedMark : Option (Nat × Ch) :=
       if rest.getLast? != some "FAULT" then none else
       match rest with
@@ -291,13 +386,24 @@ def handle (d : D) (line : String) : IO D := do
         else none
       | _ => none
     let d ← (match failedMark with
-      | some (m, ch) => feed2 d (.markFail m ch) s!"markFail {m}"
+      | some (m, ch) =>
+        let o := d.c.obs
+        let cn := if ch == .loc then 0 else 1
+        let g := genOf o m
+        (match o.markQueue.find? (fun k => k.1 == m && k.2.1 == cn && k.2.2.2 == g) with
+         | some key =>
+           let o := { o with markQueue := o.markQueue.erase key, reported := o.reported.filter (· != key) }
+           feed2 { d with c := { d.c with obs := o } } (.markFail m ch key.2.2.1) s!"markFail {m} chan={cn} off={key.2.2.1}"
+         | none => pure d)
       | none => pure d)
     match rest with
     | _ :: "open_excl" :: path :: "->" :: r :: _ =>
       if r == "-1" then return d else
       match pathMsg path with
-      | some ("info", m) => feed { d with c := { d.c with fds0 := (r, .info m) :: d.c.fds0.filter (·.1 != r) } } (.creatInfo m) s!"creatInfo {m}"
+      | some ("info", m) =>
+        let o := d.c.obs
+        let o := { o with birth := (m, o.clock) :: o.birth.filter (·.1 != m) }
+        feed { d with c := { d.c with obs := o, fds0 := (r, .info m) :: d.c.fds0.filter (·.1 != r) } } (.creatInfo m) s!"creatInfo {m}"
       | some (dir, m) => match chOf dir with
         | some ch => feed { d with c := { d.c with fds0 := (r, .chanNew m ch) :: d.c.fds0.filter (·.1 != r) } } (.creatChan m ch) s!"creatChan {m} {dir}"
         | none => return d
@@ -320,7 +426,10 @@ def handle (d : D) (line : String) : IO D := do
       let data := (unhex (kvOf more "data")).getD []
       let off := (kvOf more "off").toNat!
       match fdKind d.c.fds0 fd with
-      | some (FdKind.info m) => feed d (.writeInfo m data) s!"writeInfo {m}"
+      | some (FdKind.info m) =>
+        let o := d.c.obs
+        let o := { o with birth := (m, o.clock) :: o.birth.filter (·.1 != m) }
+        feed { d with c := { d.c with obs := o } } (.writeInfo m data) s!"writeInfo {m}"
       | some (FdKind.chanNew m ch) =>
         -- a short write may end inside a record; allwrite() continues with the rest
         let acc := (((d.c.chanAcc.find? (·.1 == fd)).map (·.2)).getD []) ++ data
@@ -331,8 +440,15 @@ def handle (d : D) (line : String) : IO D := do
         if data == [68] then
           let cn := if ch == .loc then 0 else 1
           let o := d.c.obs
-          let key := (m, cn, off, genOf o m)
-          let d := { d with c := { d.c with obs := { o with marks := key :: o.marks, reported := o.reported.filter (· != key) } } }
+          let key : Key := (m, cn, off, genOf o m)
+          let mut d := d
+          -- C03 oracle: a completion mark is written only for a recipient that was reported delivered or whose bounce
+          -- paragraph has been appended — never after a temporary failure, and never before the paragraph
+          let hadK := o.cmds.any (fun (a, c3, m3, mp3, _, g3) => (m3, c3, mp3, g3) == key && o.kAttempts.contains a)
+          if !hadK && !o.noted.contains key then
+            d ← oracleFail d "C03" s!"completion mark written for message {m} chan {cn} mpos {off} although that recipient was neither reported delivered nor has a bounce paragraph"
+          let o2 := { o with marks := key :: o.marks, reported := o.reported.filter (fun k => k != key), markQueue := o.markQueue.filter (fun k => k != key) }
+          d := { d with c := { d.c with obs := o2 } }
           feed d (.markD m ch off) s!"markD {m} chan={cn} off={off}"
         else reject d s!"unexpected write to a channel file of {m}: {line.trimAscii.toString.take 100}"
       | some (FdKind.bounce _) =>
@@ -343,7 +459,24 @@ def handle (d : D) (line : String) : IO D := do
       | some (FdKind.bounce m) =>
         let bs := ((d.c.bounceAcc.find? (·.1 == fd)).map (·.2)).getD []
         let d := { d with c := { d.c with fds0 := d.c.fds0.filter (·.1 != fd), bounceAcc := d.c.bounceAcc.filter (·.1 != fd) } }
-        if bs.isEmpty then return d else feed d (.appendBounce m bs) s!"appendBounce {m}"
+        if bs.isEmpty then return d else
+        -- observer: whose paragraph is this?  the oldest permanent-failure report of message m still waiting for one
+        let o := d.c.obs
+        let g := genOf o m
+        let cand := o.pendPara.find? (fun a => match o.cmds.find? (fun (a2, _) => a2 == a) with
+          | some (_, _, m3, _, recip, g3) => m3 == m && g3 == g && (paraHdr recip).isPrefixOf bs
+          | none => false)
+        let mut d := d
+        match cand.bind (fun a => (keyOfAtt o a).map (fun k => (a, k))) with
+        | some (a, key) =>
+          let rep2 := if o.reported.contains key then o.reported else key :: o.reported
+          let mq2 := if o.markQueue.contains key then o.markQueue else key :: o.markQueue
+          let o2 := { o with pendPara := o.pendPara.erase a, inFile := key :: o.inFile, noted := key :: o.noted, reported := rep2, markQueue := mq2 }
+          d := { d with c := { d.c with obs := o2 } }
+        | none =>
+          -- C03 oracle: a temporary failure (or no report at all) never produces a bounce paragraph
+          d ← oracleFail d "C03" s!"bounce paragraph {hex (bs.takeWhile (· != 10))} appended to bounce/{m} without a D report (or a Z past the queue lifetime) for that recipient"
+        feed d (.appendBounce m bs) s!"appendBounce {m}"
       | _ => return { d with c := { d.c with fds0 := d.c.fds0.filter (·.1 != fd) } }
     | _ :: "fsync" :: fd :: more =>
       if more.contains "-1" then return d else
@@ -355,9 +488,25 @@ def handle (d : D) (line : String) : IO D := do
       if r != "0" then return d else
       match pathMsg path with
       | some ("info", m) => feed d (.unlinkInfo m) s!"unlinkInfo {m}"
-      | some ("bounce", m) => feed d (.unlinkBounce m) s!"unlinkBounce {m}"
+      | some ("bounce", m) =>
+        -- observer: the paragraphs of a `#@[]` message are discarded with the file (documented); of any other message they
+        -- must have been queued before (`bounced`), otherwise the final accounting flags them
+        let o := d.c.obs
+        let g := genOf o m
+        let mine := o.inFile.filter (fun k => k.1 == m && k.2.2.2 == g)
+        let isDouble := ((o.msgs.find? (fun x => x.1 == m)).map (fun x => x.2.1 == "#@[]".toUTF8.toList)).getD false
+        let o := { o with inFile := o.inFile.filter (fun k => !(k.1 == m && k.2.2.2 == g)), dropped := if isDouble then mine ++ o.dropped else o.dropped }
+        feed { d with c := { d.c with obs := o } } (.unlinkBounce m) s!"unlinkBounce {m}"
       | some (dir, m) => match chOf dir with
-        | some ch => feed d (.unlinkChan m ch) s!"unlinkChan {m} {dir}"
+        | some ch =>
+          -- the file is gone: its marks and due marks are history
+          let o := d.c.obs
+          let cn := if ch == .loc then 0 else 1
+          let g := genOf o m
+          let gonek := fun (k : Key) => k.1 == m && k.2.1 == cn && k.2.2.2 == g
+          let o := { o with marks := o.marks.filter (fun k => !gonek k), reported := o.reported.filter (fun k => !gonek k),
+                            markQueue := o.markQueue.filter (fun k => !gonek k) }
+          feed { d with c := { d.c with obs := o } } (.unlinkChan m ch) s!"unlinkChan {m} {dir}"
         | none => reject d s!"qmail-send unlinked {path}"
       | none => reject d s!"qmail-send unlinked {path}"
     | _ :: "stat" :: path :: _ =>
@@ -392,7 +541,8 @@ def handle (d : D) (line : String) : IO D := do
       if !d.c.firstRead.contains fd then return { d with c := { d.c with firstRead := fd :: d.c.firstRead } } else
       let data := (unhex (kvOf more "data")).getD []
       let cn := if fd == "2" then 0 else 1
-      let d := { d with c := { d.c with obs := observeReports d.c.obs cn data } }
+      -- a new read: the marks of the previous read's reports have all been attempted
+      let d := { d with c := { d.c with obs := observeReports d.c.cfg.lifetime { d.c.obs with markQueue := [] } cn data } }
       feed d (.rbytes (if fd == "2" then .loc else .rem) data) s!"rbytes fd={fd}"
     | callno :: "select" :: more =>
       -- C16 (no busy loop): two selects with timeout 0 that found nothing ready, with no system call in between
@@ -408,7 +558,7 @@ def handle (d : D) (line : String) : IO D := do
        if d.c.spin == max 3 maxDone then
         d ← oracleFail d "C16" s!"busy loop: select(timeout=0) returned 0 {d.c.spin + 1} times in a row with no other system call (call #{k})"
       match (kvOf more "clock").toNat? with
-      | some t => feed d (.tick t) "tick"
+      | some t => feed { d with c := { d.c with obs := { d.c.obs with clock := max d.c.obs.clock t } } } (.tick t) "tick"
       | none => return d
     | _ => return d
   | "T" :: "P1" :: rest =>
@@ -423,7 +573,9 @@ def handle (d : D) (line : String) : IO D := do
       | some ("mess", m) => if r == "0" then feed d (.cUnlinkMess m) s!"cUnlinkMess {m}" else return d
       | _ => reject d s!"qmail-clean unlinked {path}"
     | _ => return d
-  | "END" :: _ => finishCase d
+  | "END" :: _ => do
+    let d ← endCrashDump d
+    finishCase d
   | _ => return d
 
 partial def loop2 (h : IO.FS.Stream) (d : D) : IO D := do
